@@ -67,7 +67,7 @@ func TestC10(t *testing.T) {
 		obs *c10Obs
 	}
 	apps := map[string]*built{}
-	var n, nUntrustedWithHeaders, nTrusted int
+	var n, nUntrustedWithHeaders, nTrusted, nBothForms int
 	readCases(t, "VERIF_CASES", func(line []byte) {
 		var cs c10Case
 		if err := json.Unmarshal(line, &cs); err != nil {
@@ -97,66 +97,77 @@ func TestC10(t *testing.T) {
 			b.h = app.Handler()
 			apps[string(key)] = b
 		}
-		var fctx fasthttp.RequestCtx
-		remote := &net.TCPAddr{IP: net.ParseIP(cs.Peer), Port: 40000}
-		if cs.TLS {
-			fctx.Init2(fakeTLSConn{fakeConn{remote}}, nil, false)
-		} else {
-			fctx.Init2(fakeConn{remote}, nil, false)
+		// the peer address as a listener hands it over: the 16-byte form (v4 addresses as v4-mapped v6, what a dual-stack socket
+		// reports) and, for v4 peers, the 4-byte form
+		forms := map[string]net.IP{"16-byte": net.ParseIP(cs.Peer)}
+		if v4 := net.ParseIP(cs.Peer).To4(); v4 != nil {
+			forms["4-byte"] = v4
+			nBothForms++
 		}
-		fctx.Request.Header.SetMethod("GET")
-		fctx.Request.SetRequestURI("/")
-		fctx.Request.Header.SetHost("real.example")
-		xff := map[string]string{"one": "198.51.100.7", "list": "198.51.100.7, 10.0.0.1", "garbage": "not-an-ip", "garbage-then-ip": "not-an-ip, 198.51.100.8"}[cs.Hdrs.Xff]
-		if cs.Hdrs.Xff != "absent" {
-			fctx.Request.Header.Set("X-Forwarded-For", xff)
-			if cs.Cfg.Header != "" {
-				fctx.Request.Header.Set(cs.Cfg.Header, xff)
+		for form, ip := range forms {
+			var fctx fasthttp.RequestCtx
+			remote := &net.TCPAddr{IP: ip, Port: 40000}
+			if cs.TLS {
+				fctx.Init2(fakeTLSConn{fakeConn{remote}}, nil, false)
+			} else {
+				fctx.Init2(fakeConn{remote}, nil, false)
 			}
-		}
-		if cs.Hdrs.Xfhost {
-			fctx.Request.Header.Set("X-Forwarded-Host", "spoof.example")
-		}
-		switch cs.Hdrs.Scheme {
-		case "X-Forwarded-Proto", "X-Forwarded-Protocol", "X-Url-Scheme":
-			fctx.Request.Header.Set(cs.Hdrs.Scheme, "https")
-		case "X-Forwarded-Ssl":
-			fctx.Request.Header.Set(cs.Hdrs.Scheme, "on")
-		}
-		*b.obs = c10Obs{}
-		b.h(&fctx)
-		expIP := map[string]string{"remote": remote.IP.String(), "empty": "", "raw-list": xff, "raw-garbage": xff, "raw-garbage-then-ip": xff}[cs.Out.IP]
-		if expIP == "" && cs.Out.IP != "empty" {
-			expIP = cs.Out.IP
-		}
-		exp := c10Obs{IP: expIP, Host: cs.Out.Host, Hostname: cs.Out.Host, Scheme: cs.Out.Scheme, BaseURL: cs.Out.Scheme + "://" + cs.Out.Host, Secure: cs.Out.Secure, Trusted: cs.Out.Trusted}
-		if cs.Out.Trusted {
-			nTrusted++
-		} else if cs.Hdrs.Xff != "absent" || cs.Hdrs.Xfhost || cs.Hdrs.Scheme != "absent" {
-			nUntrustedWithHeaders++
-		}
-		if *b.obs != exp {
-			field := ""
-			switch {
-			case b.obs.Trusted != exp.Trusted:
-				field = "IsProxyTrusted"
-			case b.obs.IP != exp.IP:
-				field = "IP"
-			case b.obs.Host != exp.Host || b.obs.Hostname != exp.Hostname:
-				field = "Host"
-			case b.obs.Scheme != exp.Scheme:
-				field = "Scheme"
-			case b.obs.Secure != exp.Secure:
-				field = "Secure"
-			default:
-				field = "BaseURL"
+			fctx.Request.Header.SetMethod("GET")
+			fctx.Request.SetRequestURI("/")
+			fctx.Request.Header.SetHost("real.example")
+			xff := map[string]string{"one": "198.51.100.7", "list": "198.51.100.7, 10.0.0.1", "garbage": "not-an-ip", "garbage-then-ip": "not-an-ip, 198.51.100.8"}[cs.Hdrs.Xff]
+			if cs.Hdrs.Xff != "absent" {
+				fctx.Request.Header.Set("X-Forwarded-For", xff)
+				if cs.Cfg.Header != "" {
+					fctx.Request.Header.Set(cs.Cfg.Header, xff)
+				}
 			}
-			o.violation(map[string]any{"check": "proxy-" + field, "prop": "C10", "cfg": cs.Cfg, "peer": cs.Peer, "tls": cs.TLS, "headers": cs.Hdrs,
-				"expected": exp, "observed": *b.obs})
+			if cs.Hdrs.Xfhost {
+				fctx.Request.Header.Set("X-Forwarded-Host", "spoof.example")
+			}
+			switch cs.Hdrs.Scheme {
+			case "X-Forwarded-Proto", "X-Forwarded-Protocol", "X-Url-Scheme":
+				fctx.Request.Header.Set(cs.Hdrs.Scheme, "https")
+			case "X-Forwarded-Ssl":
+				fctx.Request.Header.Set(cs.Hdrs.Scheme, "on")
+			}
+			*b.obs = c10Obs{}
+			b.h(&fctx)
+			expIP := map[string]string{"remote": remote.IP.String(), "empty": "", "raw-list": xff, "raw-garbage": xff, "raw-garbage-then-ip": xff}[cs.Out.IP]
+			if expIP == "" && cs.Out.IP != "empty" {
+				expIP = cs.Out.IP
+			}
+			exp := c10Obs{IP: expIP, Host: cs.Out.Host, Hostname: cs.Out.Host, Scheme: cs.Out.Scheme, BaseURL: cs.Out.Scheme + "://" + cs.Out.Host, Secure: cs.Out.Secure, Trusted: cs.Out.Trusted}
+			if form != "16-byte" {
+				// counted once per case
+			} else if cs.Out.Trusted {
+				nTrusted++
+			} else if cs.Hdrs.Xff != "absent" || cs.Hdrs.Xfhost || cs.Hdrs.Scheme != "absent" {
+				nUntrustedWithHeaders++
+			}
+			if *b.obs != exp {
+				field := ""
+				switch {
+				case b.obs.Trusted != exp.Trusted:
+					field = "IsProxyTrusted"
+				case b.obs.IP != exp.IP:
+					field = "IP"
+				case b.obs.Host != exp.Host || b.obs.Hostname != exp.Hostname:
+					field = "Host"
+				case b.obs.Scheme != exp.Scheme:
+					field = "Scheme"
+				case b.obs.Secure != exp.Secure:
+					field = "Secure"
+				default:
+					field = "BaseURL"
+				}
+				o.violation(map[string]any{"check": "proxy-" + field, "prop": "C10", "cfg": cs.Cfg, "peer": cs.Peer, "tls": cs.TLS, "headers": cs.Hdrs,
+					"addr_form": form, "expected": exp, "observed": *b.obs})
+			}
 		}
 		if n%70001 == 1 {
 			o.sample(map[string]any{"cfg": cs.Cfg, "peer": cs.Peer, "tls": cs.TLS, "headers": cs.Hdrs, "out": cs.Out})
 		}
 	})
-	o.summary(map[string]any{"cases": n, "trusted": nTrusted, "untrusted_peer_with_forwarding_headers": nUntrustedWithHeaders, "violations": o.nV})
+	o.summary(map[string]any{"cases": n, "trusted": nTrusted, "untrusted_peer_with_forwarding_headers": nUntrustedWithHeaders, "v4_peers_in_both_address_forms": nBothForms, "violations": o.nV})
 }
